@@ -2,10 +2,10 @@
 from . import l1, l1cases
 
 SPEC = {
-    "lean": ["SnowModel.Props.C02", "SnowModel.Props.L1Bridge"],
+    "lean": ["SnowModel.Props.C02", "SnowModel.Props.C02L2", "SnowModel.Props.L1Bridge"],
     "pins": ["Runtime", "ObjectRows", "ObjectModel"],
     "technique": "Lean 4 invariant proof over arbitrary op sequences of the id/slot/registry machine (every handed-out reference is an issued id; at a successful boundary it is a created row; an unfulfilled forward reference aborts) + AST pins + op-by-op trace correspondence + direct resolvability oracle on emitted rows",
-    "level_text": "Machine-checked proof, for every op sequence of the L1 machine, that whatever a name lookup hands out is an id issued for that table, that at every successful iteration boundary it names a created row (this iteration, an earlier one or an earlier continuation run), that created rows are never forgotten, and that a reserved id whose target is never created makes the end-of-iteration check fail; tied to the code by trace replay and by checking every captured reference cell against the emitted rows per iteration.",
+    "level_text": "Machine-checked proof, for every op sequence of the L1 machine, that whatever a name lookup hands out is an id issued for that table, that at every successful iteration boundary it names a created row (this iteration, an earlier one or an earlier continuation run), that created rows are never forgotten, and that a reserved id whose target is never created makes the end-of-iteration check fail; the same is carried through the L2 reference interpreter (Props/C02L2: for every recipe of the modelled language, every reference cell in the output of a completed chain names the id of a created row of that table, and an unfulfilled forward reference makes `iterations` fail); tied to the code by trace replay and by checking every captured reference cell against the emitted rows per iteration.",
     "level_note": "Trusted: Lean kernel, py2lean, trace wrappers. Dotted-path references and references produced inside formulas are covered by the L2 differential (C03), not by the L1 trace. References into hidden `__` tables and literal reference:{object,id} pairs are out of scope by the property's own text. random_reference targets are C10's.",
     "assumptions": ["nicknames_and_tables is a dict (unique keys)"],
 }
